@@ -102,6 +102,7 @@ func (h *simHub) dispatch() {
 			h.mu.Unlock()
 			d.to.enqueue(d.pkt)
 			h.nDelivered.Add(1)
+			verifHeartbeat.Add(1)
 			h.mu.Lock()
 		}
 		var wait time.Duration = time.Hour
